@@ -41,7 +41,7 @@ LibStep(line) ==
   ELSE /\ Relate(line.i, "terminates-normally", LibEnd(line.lib) /\ LibEnd(line.libv) /\ LibEnd(line.pt))
        /\ Relate(line.i, "same-end-verbose", line.lib.kind = line.libv.kind)
        /\ ~line.accepted =>
-            /\ Relate(line.i, "rejected-as-a-whole", line.lib.kind # "ok" /\ line.evaluated = 0)
+            /\ Relate(line.i, "rejected-as-a-whole", line.lib.kind # "ok" /\ line.pt.kind # "ok" /\ line.evaluated = 0)
             /\ Relate(line.i, "parse-error-located", line.pt.kind = "err" => line.located)
 
 CliStep(line) ==
